@@ -783,17 +783,24 @@ SPEC = PropSpec(
          '× 3 period configurations (constructor defaults, (20,50,3,7,11), (10,10,4,2,6)) × 1 peer and 2 peers (second peer in a random '
          'threshold state, own device first/middle/last in the dict); plus seeded random multi-pass runs (400 quick / 20000 thorough, 8–40 '
          'steps, 1–3 peers, passes with clock advances by the configured periods ±1, queue insertions, incoming SYNC/PING/RESYNC with '
-         'flags 0–3 through the real listener handler, 15 % with early/negative/backwards clocks); plus harness/corpus/C15. '
+         'flags 0–3 through the real listener handler, 15 % with early/negative/backwards clocks; in 35 % of the passes 1–3 listener '
+         'steps run INSIDE the pass, at one of seven boundaries of the outgoing thread: before/after the reset counter is read, after '
+         'last_comms is read, top of the send-loop body, during _tcp_send, before `last_attempt = now`, after the pass); plus a '
+         'single-listener-step grid (7 boundaries × SYNC-from-queue / backlog-alone SYNC / PING / RESYNC / nothing × ok/timeout × '
+         'sender b/c × flags 1/2/3 × 3 configurations, followed by a late pass); plus harness/corpus/C15. '
          'A case is non-trivial when at least one message is handed to the wire or an incoming message is handled; distinct = distinct op list',
     trusted_base=['harness doubles: `_lock_in_out` (runs the loop body once), `_now` (scripted), `_tcp_send` (scripted result, records the wire), '
-                  'stub decider snapshot, pass-through crypto + fake socket for the listener handler',
+                  'stub decider snapshot, pass-through crypto + fake socket for the listener handler; a BoboDeviceManager subclass whose '
+                  'property reads/writes only record the order of accesses and run scheduled listener steps at those boundaries (single thread)',
                   'the three return codes of `_tcp_send` are the only way socket behaviour reaches the loop'],
-    assumptions=['sequential model: the listener\'s clear_last and on_decider_update happen between passes of the outgoing loop '
-                 '(the interleaving inside a pass is C07 / finding F5, not C15)',
+    assumptions=['the C15 theorems are about the sequential model: the listener\'s clear_last and on_decider_update happen between '
+                 'passes of the outgoing loop (every interleaving inside a pass is proved in Props/C07.lean on the small-step model '
+                 '`passSmall`, which this harness also compares with the real loop at seven boundaries)',
                  'reset_then_resync_seq: every pass reads a clock ≥ period_resync (true of seconds since 1970)',
                  'the outgoing queue is unbounded or not full (max_size_outgoing default 0)'],
-    model_covers='BoboDistributedTCP._tcp_outgoing (decision phase, cache_sync sharing, per-branch flags/payload/bookkeeping), '
-                 'BoboDeviceManager mutators incl. the max(0,·) clamps, the reset test of _tcp_incoming_handle_client; '
+    model_covers='BoboDistributedTCP._tcp_outgoing (decision phase incl. the reset counter read before the times, cache_sync sharing, '
+                 'per-branch flags/payload/bookkeeping with contacted(now, resets)), BoboDeviceManager mutators incl. the max(0,·) clamps, '
+                 'clear_last\'s counter and contacted, the reset test of _tcp_incoming_handle_client; '
                  'selectMode, book, flagsOf, prep, payload, device-manager mutators, constants and default periods are generated from '
                  'the source and proved equal to the model',
 )
